@@ -47,7 +47,15 @@ func (t *Template) FindTranslation(channel *Channel, locales []i18n.Locale) *Tem
 		return nil
 	}
 
-	match := i18n.NewBCP47Matcher(candidateLocales...).ForLocales(locales...)
+	// an environment without languages gives empty locales which can't be matched on
+	preferred := make([]i18n.Locale, 0, len(locales))
+	for _, l := range locales {
+		if l != i18n.NilLocale {
+			preferred = append(preferred, l)
+		}
+	}
+
+	match := i18n.NewBCP47Matcher(candidateLocales...).ForLocales(preferred...)
 	return candidates[match]
 }
 
